@@ -489,7 +489,9 @@ func checkF(c FCase, r *vf.R) error {
 	if len(polys) != len(c.Contours) {
 		return nil // a contour degenerated in the builder
 	}
-	if oracle.SelfIntersects(polys, 1e-9) {
+	// the simplicity test is quadratic in the number of edges: a coarse sampling of the whole path, and a fine one of
+	// the two ends that meet in every vertex (curved edges leaving a sharp vertex can cross right next to it)
+	if oracle.SelfIntersects(oracle.Sample(segs, 32), 1e-9) || crossNearVertex(segs) {
 		r.Class("not-simple(discarded)")
 		return nil
 	}
@@ -605,6 +607,46 @@ func levelClash(segs []oracle.Seg) (curvedLevel, almostLevel bool) {
 	return
 }
 
+// crossNearVertex: the last tenth of a segment and the first tenth of the next one (the closing segment and the first
+// one included) meet somewhere else than in their common vertex.
+func crossNearVertex(segs []oracle.Seg) bool {
+	var subs [][]oracle.Seg
+	for _, s := range segs {
+		if s.Cmd == oracle.MoveTo {
+			subs = append(subs, nil)
+			continue
+		}
+		if len(subs) > 0 && s.P0 != s.End() {
+			subs[len(subs)-1] = append(subs[len(subs)-1], s)
+		}
+	}
+	const n = 40
+	for _, ss := range subs {
+		for i := range ss {
+			a, b := ss[i], ss[(i+1)%len(ss)]
+			if !a.Curved() && !b.Curved() || len(ss) < 2 {
+				continue
+			}
+			var pa, pb []oracle.Pt
+			for k := 0; k <= n; k++ {
+				pa = append(pa, a.Eval(1-0.1*float64(k)/n)) // from the vertex backwards
+				pb = append(pb, b.Eval(0.1*float64(k)/n))   // from the vertex forwards
+			}
+			for x := 1; x < n; x++ {
+				for y := 1; y < n; y++ {
+					if x+y <= 2 {
+						continue // the two edges at the vertex itself
+					}
+					if oracle.SegsTouch(pa[x], pa[x+1], pb[y], pb[y+1], 1e-12) {
+						return true
+					}
+				}
+			}
+		}
+	}
+	return false
+}
+
 func TestCCWFilling(t *testing.T) {
-	vf.Run(t, vf.Prop[FCase]{Sub: "ccwfilling", Gen: genF, Check: checkF, Cases: vf.N(800, 30000)})
+	vf.Run(t, vf.Prop[FCase]{Sub: "ccwfilling", Gen: genF, Check: checkF, Cases: vf.N(1500, 30000)})
 }
